@@ -245,6 +245,13 @@ class ContractMixin:
         if name == "fresh_obj":
             # allocated during this call: born after everything that existed at old()
             return self.ev(e.args[0], st, lambda v, s: k(mk_bool(birth(v.t) > s.old.bound), s))
+        if name == "mine":
+            # created by this invocation of the function under verification (syntactic allocation sites on this path)
+            def is_mine(v, s):
+                if not isinstance(v, Val):
+                    return k(mk_bool(False), s)
+                return k(mk_bool(z3.Or(*[v.t == o for (o, _oc) in s.new_objs]) if s.new_objs else z3.BoolVal(False)), s)
+            return self.ev(e.args[0], st, is_mine)
         if name == "typeof":
             return self.ev(e.args[0], st, lambda v, s: k(self.type_of(v), s))
         if name == "seq_eq":
@@ -273,7 +280,7 @@ class ContractMixin:
             if saved_locals is not None:
                 s.frame.locals.clear()
                 s.frame.locals.update(saved_locals)
-            if isinstance(v, (Cell, FldList)):
+            if isinstance(v, (Cell, FldList)) or type(v).__name__ == "DictEntryList":
                 v = self.get_list(s, v)
             if isinstance(v, OptList):
                 v = OptList(v.none, self.get_list(s, v.lst))
